@@ -1207,6 +1207,8 @@ impl Vm {
         self.active_fiber_mut().frames.pop();
         if self.active_fiber().has_finished() {
             if self.active_fiber().caller.is_some() {
+                // Nothing reads a finished fiber's stack again: don't keep its values alive.
+                self.active_fiber_mut().stack.truncate(prev_stack_size);
                 self.unload_fiber(None)?;
                 self.poke(0, result);
                 return Ok(None);
